@@ -61,7 +61,17 @@ func main() {
 	flag.Var(&adds, "add", "srcfile=repo-relative-destination : add a file through the overlay (repeatable)")
 	var addDirs stringsFlag
 	flag.Var(&addDirs, "adddir", "srcdir=repo-relative-pkgdir : add every .go file of srcdir to the package (repeatable)")
+	var substs stringsFlag
+	flag.Var(&substs, "subst", "repo-relative-file=replacement : read this file's source from replacement (mutation testing without touching the repo)")
 	flag.Parse()
+	for _, a := range substs {
+		kv := strings.SplitN(a, "=", 2)
+		if len(kv) != 2 {
+			die(fmt.Errorf("bad -subst %q", a))
+		}
+		abs, _ := filepath.Abs(kv[1])
+		substMap[filepath.Join(*repo, kv[0])] = abs
+	}
 
 	enabled := map[string]bool{}
 	for _, s := range strings.Split(*shims, ",") {
@@ -97,12 +107,16 @@ func main() {
 			die(fmt.Errorf("%s: %v", rel, err))
 		}
 	}
+	for k, v := range substMap {
+		overlay[k] = v
+	}
 	for _, a := range adds {
 		kv := strings.SplitN(a, "=", 2)
 		if len(kv) != 2 {
 			die(fmt.Errorf("bad -add %q", a))
 		}
-		abs, _ := filepath.Abs(kv[0]); overlay[filepath.Join(*repo, kv[1])] = abs
+		abs, _ := filepath.Abs(kv[0])
+		overlay[filepath.Join(*repo, kv[1])] = abs
 	}
 	for _, a := range addDirs {
 		kv := strings.SplitN(a, "=", 2)
@@ -115,7 +129,8 @@ func main() {
 		}
 		for _, e := range ents {
 			if strings.HasSuffix(e.Name(), ".go") {
-				abs, _ := filepath.Abs(filepath.Join(kv[0], e.Name())); overlay[filepath.Join(*repo, kv[1], e.Name())] = abs
+				abs, _ := filepath.Abs(filepath.Join(kv[0], e.Name()))
+				overlay[filepath.Join(*repo, kv[1], e.Name())] = abs
 			}
 		}
 	}
@@ -126,6 +141,8 @@ func main() {
 		}
 	}
 }
+
+var substMap = map[string]string{}
 
 func die(err error) {
 	fmt.Fprintln(os.Stderr, "instr:", err)
@@ -176,7 +193,12 @@ func doPackage(fset *token.FileSet, imp types.Importer, dir, pkgPath, work strin
 			continue
 		}
 		p := filepath.Join(dir, n)
-		src, err := os.ReadFile(p)
+		from := p
+		if r, ok := substMap[p]; ok {
+			from = r
+			delete(substMap, p)
+		}
+		src, err := os.ReadFile(from)
 		if err != nil {
 			return err
 		}
@@ -206,7 +228,8 @@ func doPackage(fset *token.FileSet, imp types.Importer, dir, pkgPath, work strin
 		if err := os.WriteFile(dst, outSrc, 0o644); err != nil {
 			return err
 		}
-		abs, _ := filepath.Abs(dst); overlay[names[i]] = abs
+		abs, _ := filepath.Abs(dst)
+		overlay[names[i]] = abs
 	}
 	return nil
 }
@@ -539,6 +562,8 @@ func (r *rewriter) selectStmt(n *ast.SelectStmt) ast.Stmt {
 		body = append(body, cc.Body...)
 		sw.Body.List = append(sw.Body.List, &ast.CaseClause{List: []ast.Expr{label}, Body: body})
 	}
+	sw.Body.List = append(sw.Body.List, &ast.CaseClause{List: nil, Body: []ast.Stmt{
+		&ast.ExprStmt{X: &ast.CallExpr{Fun: ast.NewIdent("panic"), Args: []ast.Expr{&ast.BasicLit{Kind: token.STRING, Value: `"vm: select returned an unknown case"`}}}}}})
 	df := "false"
 	if hasDefault {
 		df = "true"
